@@ -216,16 +216,16 @@ func (r *Report) finish(c *Ctx, tier string, start time.Time, evidencePath, find
 		"Each obligation is one construct (function, call site, table, path) matched by one rule; an obligation is discharged when the rule's structural condition holds for that construct. "+
 		"Rules: %s. NOT decided by this check: %s", c.ModPath, strings.Join(ruleTexts, " | "), r.NotDecided)
 	cov := map[string]interface{}{
-		"explanation":  expl,
-		"obligations":  len(r.Obls),
-		"discharged":   discharged,
-		"checker_cmd":  fmt.Sprintf("/verif/check %s %s", r.Prop, tier),
-		"trusted_base": []string{"go/types, go/ssa and go/packages of golang.org/x/tools v0.29.0", "the rule implementations under /verif/lunarlint", "the reviewed expectation tables under /verif/spec", "the named axioms listed under assumptions"},
-		"rules":        rs,
-		"samples":      samples,
-		"analysed":     analysed,
-		"exhaustive":   false,
-		"notes":        r.Notes,
+		"explanation":             expl,
+		"obligations":             len(r.Obls),
+		"discharged":              discharged,
+		"checker_cmd":             fmt.Sprintf("/verif/check %s %s", r.Prop, tier),
+		"trusted_base":            []string{"go/types, go/ssa and go/packages of golang.org/x/tools v0.29.0", "the rule implementations under /verif/lunarlint", "the reviewed expectation tables under /verif/spec", "the named axioms listed under assumptions"},
+		"rules":                   rs,
+		"samples":                 samples,
+		"analysed":                analysed,
+		"exhaustive":              false,
+		"notes":                   r.Notes,
 		"known_findings_reported": len(known),
 	}
 	if len(classes) > 0 {
